@@ -460,17 +460,29 @@ def _template_min_sum(an, prog, e, depth=0):
     e = peel(e, widen=True)
     if e[0] != "call" or e[2] is None or depth > 3:
         return None
+    def fn_body(x):
+        x = peel(x, identity=(), casts=False)
+        while x[0] == "cast" and str(x[1]).startswith("PointerCoercion"):
+            x = peel(x[2], identity=(), casts=False)
+        if x[0] == "closure" and x[1] in prog.bodies:
+            return prog.bodies[x[1]]
+        if x[0] == "constfn" and x[1].local and x[1].path in prog.bodies:
+            return prog.bodies[x[1].path]
+        return None
     if e[2].nsyn == "std::iter::Iterator::fold" and len(e[3]) == 3:
         init = const_eval(e[3][1])
         clo = peel(e[3][2], identity=(), casts=False)
         if init == {0} and clo[0] == "closure" and clo[1] in prog.bodies:
             return prog.bodies[clo[1]]
+        # `.map(per_field).fold(0, usize::saturating_add)`
+        if init == {0} and clo[0] == "constfn" and clo[1].npath.endswith("::saturating_add"):
+            it = peel(e[3][0], identity=())
+            if it[0] == "call" and it[2] is not None and it[2].nsyn == "std::iter::Iterator::map" and len(it[3]) == 2:
+                return fn_body(it[3][1])
     if e[2].nsyn == "std::iter::Iterator::sum" and e[3]:
         it = peel(e[3][0], identity=())
         if it[0] == "call" and it[2] is not None and it[2].nsyn == "std::iter::Iterator::map" and len(it[3]) == 2:
-            clo = peel(it[3][1], identity=(), casts=False)
-            if clo[0] == "closure" and clo[1] in prog.bodies:
-                return prog.bodies[clo[1]]
+            return fn_body(it[3][1])
     return None
 
 
@@ -478,6 +490,8 @@ def _contribution_table(an, prog, cb):
     """Evaluate the per-field contribution of closure body cb as a function of `field_length` on a set of lengths that
     covers every constant the closure compares against (±1) and the extremes: {L: contribution or None}.
     The contribution is the non-accumulator operand of the closure's additive call, or its returned value."""
+    # pure predicates / accessors the contribution is written with (`field.is_variable_length()`) are inlined
+    cb = classifier_inlined(prog, cb.path) or cb
     # locals that hold <field>.field_length
     fl_locals = []
     sl = an.slicer(cb)
@@ -488,7 +502,24 @@ def _contribution_table(an, prog, cb):
             continue
         if x[0] == "field" and x[2] == "field_length":
             fl_locals.append(l)
-    if not fl_locals:
+    # ... and the places that read it in place (`match self.field_length { .. }`)
+    from ..mir import _placeref
+    fl_places = set()
+
+    def scan(x):
+        if isinstance(x, dict):
+            pr = x.get("p")
+            if "l" in x and pr and pr[-1].get("k") == "field" and pr[-1].get("name") == "field_length":
+                r = _placeref(x)
+                if r is not None and r[0] == "p":
+                    fl_places.add(r)
+            for v in x.values():
+                scan(v)
+        elif isinstance(x, list):
+            for v in x:
+                scan(v)
+    scan(cb.blocks)
+    if not fl_locals and not fl_places:
         return None
     consts = set([0, 1, 2, 255, 256, 65534, 65535])
     for blk in range(cb.nblocks):
@@ -523,7 +554,9 @@ def _contribution_table(an, prog, cb):
                         seen.append(None)
             if not add_sites and cb.term(bk)["k"] == "return":
                 seen.append(env.get(0))
-        cb.reachable_cp(0, assume={l: L for l in fl_locals}, observe=obs)
+        asm = {l: L for l in fl_locals}
+        asm.update({r: L for r in fl_places})
+        cb.reachable_cp(0, assume=asm, observe=obs)
         vals = set(seen)
         table[L] = next(iter(vals)) if len(vals) == 1 else None
     return table
